@@ -7,6 +7,7 @@ CONSTANTS
   NoReset = FALSE
   SwallowApp = FALSE
   ResetOnRecover = FALSE
+  StaleGuard = FALSE
   GenDepth = 40
 SPECIFICATION GSpec
 INVARIANT Emit
